@@ -8,6 +8,7 @@ import (
 	"fmt"
 	"io"
 	"math/big"
+	"sync"
 	"testing"
 
 	"github.com/emmansun/gmsm/sm2"
@@ -24,12 +25,29 @@ var ctorNames = []string{"NewPrivateKey", "NewPrivateKeyFromInt", "struct-litera
 // pubForScalar is the public point put next to a scalar in a directly built
 // key object: [d mod n]G, or G where that is the point at infinity.
 func pubForScalar(d *big.Int) ref.Point {
-	p := ref.SM2.BaseMul(modN(d))
-	if p.Inf {
-		return ref.SM2.G
+	key := d.Text(16)
+	pubMemoMu.Lock()
+	p, ok := pubMemo[key]
+	pubMemoMu.Unlock()
+	if ok {
+		return p
 	}
+	p = ref.SM2.BaseMul(modN(d))
+	if p.Inf {
+		p = ref.SM2.G
+	}
+	pubMemoMu.Lock()
+	if len(pubMemo) < 4096 {
+		pubMemo[key] = p // memo of a pure function (1 ms each); no case depends on its content
+	}
+	pubMemoMu.Unlock()
 	return p
 }
+
+var (
+	pubMemoMu sync.Mutex
+	pubMemo   = map[string]ref.Point{}
+)
 
 // buildKey makes a library key object for the scalar (big-endian bytes, any
 // length) through one of the constructors. An error means the constructor
@@ -253,7 +271,11 @@ func checkComplete(c complCase, rec *h.Rec) error {
 				h.HarnessError("digest shorter than 32 bytes")
 			}
 			digest = gen.Fill(gen.Mix(c.MsgSeed, 0x6469), c.DigLen)
-			rec.Label("digest:random-len-%d", min(c.DigLen, 33))
+			if c.DigLen == 32 {
+				rec.Label("digest:random-32")
+			} else {
+				rec.Label("digest:random-longer")
+			}
 		}
 	}
 
